@@ -2,6 +2,8 @@ package main
 
 import (
 	"fmt"
+	"go/token"
+	"go/types"
 	"sort"
 	"strings"
 
@@ -108,6 +110,10 @@ func runC12(c *Ctx) []Obligation {
 	}
 	// 2. clock / randomness
 	allowed := func(n string) bool {
+		// a process signalling itself (halt) uses its own pid: no state depends on it
+		if n == "os.FindProcess" {
+			return true
+		}
 		return n == "types.TimeTrack" || strings.Contains(n, "ServiceMetric") || strings.Contains(n, "libs/log.Logger.") || n == "fmt.Sprintf" || n == "fmt.Println" || n == "fmt.Printf" ||
 			strings.HasPrefix(n, "(*x/pocketcore/types.ServiceMetrics).") || strings.HasPrefix(n, "(*x/pocketcore/types.ServiceMetric).")
 	}
@@ -187,6 +193,63 @@ func runC12(c *Ctx) []Obligation {
 			}
 		}
 	}
+	// 4. floating point: compilers may fuse x*y+z on some architectures, and float formatting /
+	// conversion of large values is where nodes of different builds drift; consensus arithmetic
+	// is meant to be big-integer / fixed-point only
+	{
+		ob := c.obl(P, "no-float-arithmetic", "CONSENSUS", "no floating-point arithmetic or float-to-integer conversion in repository code on the consensus path (outside observability)")
+		for f := range reach {
+			if f.Blocks == nil || !fnInRepo(f) {
+				continue
+			}
+			name := FnName(f)
+			if floatExceptions[name] != "" {
+				continue
+			}
+			for _, b := range f.Blocks {
+				for _, ins := range b.Instrs {
+					ob.Facts++
+					switch x := ins.(type) {
+					case *ssa.BinOp:
+						if isFloat(x.X.Type()) {
+							switch x.Op {
+							case token.ADD, token.SUB, token.MUL, token.QUO:
+								ob.Path = pathTo(reach, f)
+								ob.fail(c.A.Pos(x.Pos()), "%s computes %s on floating-point operands", name, x.Op)
+							}
+						}
+					case *ssa.Convert:
+						if isFloat(x.X.Type()) && !isFloat(x.Type()) {
+							ob.Path = pathTo(reach, f)
+							ob.fail(c.A.Pos(x.Pos()), "%s converts a floating-point value to %s", name, x.Type())
+						}
+					}
+				}
+			}
+		}
+		out = append(out, *ob)
+	}
+	// 5. select with several communication cases picks a ready case at random
+	{
+		ob := c.obl(P, "no-racy-select", "CONSENSUS", "no select with more than one communication case in repository code on the consensus path")
+		for f := range reach {
+			if f.Blocks == nil || !fnInRepo(f) {
+				continue
+			}
+			for _, b := range f.Blocks {
+				for _, ins := range b.Instrs {
+					if s, ok := ins.(*ssa.Select); ok {
+						ob.Facts++
+						if len(s.States) > 1 {
+							ob.Path = pathTo(reach, f)
+							ob.fail(c.A.Pos(s.Pos()), "%s selects among %d channel operations: when several are ready the choice is random", FnName(f), len(s.States))
+						}
+					}
+				}
+			}
+		}
+		out = append(out, *ob)
+	}
 	sort.SliceStable(out, func(i, j int) bool {
 		if out[i].Rule != out[j].Rule {
 			return out[i].Rule < out[j].Rule
@@ -194,6 +257,18 @@ func runC12(c *Ctx) []Obligation {
 		return out[i].Construct < out[j].Construct
 	})
 	return out
+}
+
+// floatExceptions: functions on the consensus path that use floating point only for
+// observability, with the reason.
+var floatExceptions = map[string]string{
+	"(x/pocketcore/keeper.Keeper).ValidateProof": "int(math.Ceil(math.Log2(float64(n)))): math.Log2 is pure Go on the supported platforms and returns exact integers for powers of two by a special case; for any other n below 2^40 the result is more than 2^-40 away from an integer, far beyond rounding or multiply-add fusion differences, so Ceil is the same everywhere",
+	"x/nodes/keeper.BeginBlocker":                  "int(Duration.Minutes()): one float division and addition of exactly representable operands followed by truncation; no fused operation is possible",
+}
+
+func isFloat(t types.Type) bool {
+	b, ok := t.Underlying().(*types.Basic)
+	return ok && b.Info()&types.IsFloat != 0
 }
 
 func uniq(s []string) []string {
